@@ -141,6 +141,28 @@ impl<TX> DataStreams<TX>
 where
     TX: SendFrame<StreamCtlFrame> + Clone + Send + 'static,
 {
+    /// An endpoint MUST terminate the connection with error STREAM_STATE_ERROR if it receives a
+    /// STREAM, STOP_SENDING or MAX_STREAM_DATA frame for a locally initiated stream that has not yet been created.
+    ///
+    /// See [Section 19.8](https://www.rfc-editor.org/rfc/rfc9000.html#section-19.8-3),
+    /// [Section 19.5](https://www.rfc-editor.org/rfc/rfc9000.html#section-19.5-2) and
+    /// [Section 19.10](https://www.rfc-editor.org/rfc/rfc9000.html#section-19.10-2).
+    fn check_local_sid_created(&self, sid: StreamId, fty: FrameType) -> Result<(), QuicError> {
+        if sid.id() >= self.stream_ids.local.opened_streams(sid.dir()) {
+            return Err(QuicError::new(
+                ErrorKind::StreamState,
+                fty.into(),
+                format!("local {sid} has not been created yet"),
+            ));
+        }
+        Ok(())
+    }
+}
+
+impl<TX> DataStreams<TX>
+where
+    TX: SendFrame<StreamCtlFrame> + Clone + Send + 'static,
+{
     /// Try to load data from streams into the `packet`,
     /// with a `flow_limit` which limits the max size of fresh data.
     /// Returns the size of fresh data.
@@ -421,6 +443,7 @@ where
                     format!("local {sid} cannot receive STREAM_FRAME"),
                 ));
             }
+            self.check_local_sid_created(sid, stream_frame.frame_type())?;
         }
 
         if let Ok(set) = self.input.streams().as_mut()
@@ -466,6 +489,7 @@ where
                             format!("local {sid} cannot receive RESET_STREAM frame"),
                         ));
                     }
+                    self.check_local_sid_created(sid, reset.frame_type())?;
                 }
                 if let Ok(set) = self.input.streams().as_mut()
                     && let Some((incoming, s)) = set.remove(&sid)
@@ -491,6 +515,8 @@ where
                     }
                     self.try_accept_sid(sid)
                         .map_err(wrapper_error(stop_sending.frame_type()))?;
+                } else {
+                    self.check_local_sid_created(sid, stop_sending.frame_type())?;
                 }
 
                 if let Some(final_size) = self
@@ -520,6 +546,8 @@ where
                     }
                     self.try_accept_sid(sid)
                         .map_err(wrapper_error(max_stream_data.frame_type()))?;
+                } else {
+                    self.check_local_sid_created(sid, max_stream_data.frame_type())?;
                 }
                 if let Some((outgoing, _s)) = self
                     .output
